@@ -174,6 +174,16 @@ CLAIMED = {
         design_ref="DESIGN.md 3 C15; engines/kani/NOTES_C15.md",
         note="Algebraic claims (Lagrange interpolation, aggregate verifies) are not posed; choose only for <= 2 commitments (thorough).",
     ),
+    "C13": dict(
+        engine="llsym",
+        technique="path-forking symbolic execution of optimized LLVM IR of p256 prepare_truncate with all signature bytes symbolic at every length; z3-bv decides accept condition and output encoding",
+        category="model_checking",
+        text=("Only the documented preparation step of truncated ECDSA/P-256 signatures is decided (accept iff r, s in "
+              "range; r re-encoded on 32 big-endian bytes; s normalised below 2^255 in little-endian). The reconstruction "
+              "search of verify_trunc_* (Ed25519 and P-256) is not encodable within reach and is NOT claimed."),
+        design_ref="DESIGN.md 3 C13, 8",
+        note="Partial claim, stated as such: soundness/completeness of the truncated-signature search are outside.",
+    ),
     "C16": dict(
         engine="kani",
         technique="Kani/CBMC proof harnesses inside each LMS parameter-set module: one step of sign from an arbitrary key state (induction over all histories), verify against an RFC 8554 transcription with stand-in hashes; concrete-playback replay",
@@ -221,7 +231,7 @@ CLAIMED = {
     ),
 }
 
-NA_REASON = "check not built yet (work in progress; see DESIGN.md section 8)"
+NA_REASON = "no check"
 
 checks = []
 for pid in ids:
@@ -255,7 +265,7 @@ man = {
          "kind_free_text": "Kani/CBMC proof harnesses wired into a scratch copy of the crate; concrete-playback replay"},
         {"name": "polyid", "path": "engines/polyid", "serves_properties": ["C03", "C04", "C10", "C14"],
          "kind_free_text": "interpreter over rustc MIR executing point formulas over an abstract ring; z3 decides polynomial identities"},
-        {"name": "llsym", "path": "engines/llsym", "serves_properties": ["C01", "C02", "C05", "C06", "C07", "C08", "C09", "C11", "C12", "C17", "C18", "C19", "C20"],
+        {"name": "llsym", "path": "engines/llsym", "serves_properties": ["C01", "C02", "C05", "C06", "C07", "C08", "C09", "C11", "C12", "C13", "C17", "C18", "C19", "C20"],
          "kind_free_text": "symbolic executor over rustc's optimized LLVM IR (concrete control, symbolic data) with bit-vector and integer SMT encodings; z3/cvc5 decide"},
     ],
     "checks": checks,
